@@ -455,7 +455,7 @@ func c08(c *fw.Ctx) {
 	c.Assume("dmref (harness/ref/dmref) is the transcription of ISO/IEC 16022 (anchored on the '123456' example and published table values in the start-up self-test)")
 	c.Run("tables", func(r *fw.Rec) { c08Tables(r) })
 	c.Run("randomise", func(r *fw.Rec) { c08Randomise(r) })
-	reps := c.Pick(60, 1500)
+	reps := c.Pick(60, 5000)
 	for si, s := range dmref.Symbols() {
 		for k := 0; k < reps; k++ {
 			s, k := s, k
